@@ -53,6 +53,9 @@ pub struct Finding {
     pub key: Option<String>,
     #[serde(default)]
     pub key_prefix: Option<String>,
+    /// any of these exact keys (one root cause that shows through several oracle clauses, e.g. slow / hang / heap cap)
+    #[serde(default)]
+    pub keys: Vec<String>,
     #[serde(default)]
     pub witness: Option<String>,
     pub what: String,
@@ -66,6 +69,9 @@ impl Finding {
             if k == key {
                 return true;
             }
+        }
+        if self.keys.iter().any(|k| k == key) {
+            return true;
         }
         if let Some(p) = &self.key_prefix {
             if key.starts_with(p.as_str()) {
@@ -341,7 +347,7 @@ impl<'a, C: CaseT> Evaluator<'a, C> {
                         let kind = if cpu_bound { "cpu" } else { "sleep" };
                         if cfg.hang_is_violation {
                             EvalOut {
-                                v: Verdict::fail(format!("hang|{kind}|{class}"), format!("no answer within {} ms ({kind}-bound)", cfg.timeout_ms)),
+                                v: Verdict::fail(format!("hang|{class}"), format!("no answer within {} ms (worker was {kind}-bound when killed)", cfg.timeout_ms)),
                                 cpu_us: cfg.timeout_ms * 1000,
                                 peak: 0,
                                 inconclusive: false,
@@ -844,14 +850,25 @@ impl Engine {
         let mut known_lines = Vec::new();
         let mut resolved = Vec::new();
         let findings: Vec<Finding> = self.sh.findings.iter().filter(|f| f.property == prop && f.status == "open").cloned().collect();
-        for f in &findings {
-            let Some(w) = &f.witness else {
+        // witnesses are evaluated concurrently (a hanging witness costs a full worker timeout)
+        let witness_results: Vec<Option<Result<(Verdict, ReplayFile), String>>> = std::thread::scope(|s| {
+            let hs: Vec<_> = findings
+                .iter()
+                .map(|f| {
+                    let me = &self;
+                    s.spawn(move || f.witness.as_ref().map(|w| me.eval_replay_file(&me.sh.verif_dir.join(w))))
+                })
+                .collect();
+            hs.into_iter().map(|h| h.join().expect("witness thread")).collect()
+        });
+        for (f, wr) in findings.iter().zip(witness_results) {
+            let Some(wr) = wr else {
                 println!("KNOWN-FINDING: property={} {} [{}] (no witness file)", prop, f.what, f.id);
                 known_lines.push(f.id.clone());
                 continue;
             };
-            let path = self.sh.verif_dir.join(w);
-            match self.eval_replay_file(&path) {
+            let path = self.sh.verif_dir.join(f.witness.as_ref().unwrap());
+            match wr {
                 Ok((Verdict::Fail { key, msg }, _)) => {
                     if f.matches(&key) {
                         println!("KNOWN-FINDING: property={} {} [{}]", prop, f.what, f.id);
